@@ -184,7 +184,7 @@ pub fn build_chain<I: DiffItem>(
     let mut t0 = TapState::new(0, I::BATCHED, values.clone());
     {
         let w = env.borrow();
-        t0.raw = Some(RawInfo { cursor: w.msgs.len(), partial: 0, bidx: w.boundaries.len() - 1, saw_reset: false });
+        t0.raw = Some(RawInfo { cursor: w.msgs.len(), partial: 0, bidx: w.boundaries.len() - 1, saw_reset: false, just_finished_batch: false });
     }
     t0.record = true;
     t0.feeds_sort = feeds_sort_of(chain.first());
